@@ -198,7 +198,7 @@ func verifC11ParseRaw() {
 }
 
 // vRefConfigFrame walks the ECHConfig framing (draft-ietf-tls-esni section 4):
-// version(2) length(2) { id(1) kem(2) public_key<2> cipher_suites<2> max_name(1) public_name<1> ... }.
+// version(2) length(2) { id(1) kem(2) public_key<2> cipher_suites<2> max_name(1) public_name<1> extensions<2> }.
 func vRefConfigFrame(b []byte) (ok bool, pk, suites, name []byte) {
 	if len(b) < 4 {
 		return
@@ -231,7 +231,12 @@ func vRefConfigFrame(b []byte) (ok bool, pk, suites, name []byte) {
 	if len(c) < l {
 		return
 	}
-	return true, pk, suites, c[:l]
+	name, c = c[:l], c[l:]
+	// extensions<0..2^16-1> close the structure: present, and nothing after them
+	if len(c) < 2 || len(c) != 2+(int(c[0])<<8|int(c[1])) {
+		return false, nil, nil, nil
+	}
+	return true, pk, suites, name
 }
 
 // verifC11TLSClient: an independent consumer - crypto/tls's client - is given the
